@@ -35,6 +35,7 @@ var checks = map[string]func(*vk.Run){
 	"C06": gold.RunC06,
 	"C18": abiref.RunC18,
 	"C04": meas.RunC04,
+	"C05": meas.RunC05,
 }
 
 func main() {
